@@ -50,6 +50,7 @@ var run *vlib.Run
 var scratch string
 
 type stream struct {
+	RereadOnly bool // only the read-it-again check (a); no read-size schedules
 	Name    string
 	SigType string
 	File    string // path of the input
@@ -101,6 +102,19 @@ func streams() []stream {
 		{Name: "macho", SigType: "mach-o", File: filepath.Join(pk, "slimfile.app/dummyapp"), Hash: crypto.SHA256},
 		{Name: "dmg", SigType: "dmg", File: filepath.Join(pk, "dummy.dmg"), Hash: crypto.SHA256},
 		{Name: "ps1", SigType: "ps", File: filepath.Join(pk, "hello.ps1"), Flags: url.Values{"ps-style": {".ps1"}}, Hash: crypto.SHA256},
+		// every other type's client-side transform must be re-readable too (a
+		// retry after a failed upload reads it again)
+		{RereadOnly: true, Name: "pgp-detached", SigType: "pgp", File: filepath.Join(pk, "Release"), Hash: crypto.SHA256},
+		{RereadOnly: true, Name: "pgp-clearsign", SigType: "pgp", File: filepath.Join(pk, "Release"), Flags: url.Values{"clearsign": {"true"}}, Hash: crypto.SHA256},
+		{RereadOnly: true, Name: "pgp-inline", SigType: "pgp", File: filepath.Join(pk, "Release"), Flags: url.Values{"inline": {"true"}}, Hash: crypto.SHA256},
+		{RereadOnly: true, Name: "deb", SigType: "deb", File: filepath.Join(pk, "zlib1g_1.2.8.dfsg-5_i386.deb"), Hash: crypto.SHA256},
+		{RereadOnly: true, Name: "rpm", SigType: "rpm", File: filepath.Join(pk, "rocky-basesystem-11-13.el9.noarch.rpm"), Hash: crypto.SHA256},
+		{RereadOnly: true, Name: "cat", SigType: "cat", File: filepath.Join(pk, "hyperv.cat"), Hash: crypto.SHA256},
+		{RereadOnly: true, Name: "appmanifest", SigType: "appmanifest", File: filepath.Join(pk, "WindowsFormsApplication1.exe.manifest"), Hash: crypto.SHA256},
+		{RereadOnly: true, Name: "vsix", SigType: "vsix", File: filepath.Join(pk, "VSIXProject1.vsix"), Hash: crypto.SHA256},
+		{RereadOnly: true, Name: "xar", SigType: "xar", File: filepath.Join(pk, "dummy.pkg"), Hash: crypto.SHA256},
+		{RereadOnly: true, Name: "ps1xml", SigType: "ps", File: filepath.Join(pk, "hello.ps1xml"), Hash: crypto.SHA256},
+		{RereadOnly: true, Name: "mof", SigType: "ps", File: filepath.Join(pk, "hello.mof"), Hash: crypto.SHA256},
 	}
 }
 
@@ -309,7 +323,7 @@ func chunkPhase(cfg *config.Config, ss []stream, uploads map[string][]byte) {
 	var jobs []job
 	for _, s := range ss {
 		data := uploads[s.Name]
-		if data == nil {
+		if data == nil || s.RereadOnly {
 			continue
 		}
 		defReads := (len(data) + 32767) / 32768
@@ -590,7 +604,7 @@ func main() {
 	uploads := rereadPhase(ss)
 	chunkPhase(cfg, ss, uploads)
 	clientPhase(cfg)
-	run.Rule("(a) 11 upload streams read three times; (b) each stream x every read-size schedule: constant sizes {1,2,7,511,512,513,4095,4096,4097,65535,65536,65537,2^20-1,2^20,2^20+1,unbounded}, ordered pairs as 2-cycles (quick: 7-value sub-ladder; thorough: full ladder), one short read (1 byte; one byte under the copy buffer) at every read index of the default schedule (capped at 80 indices) - the real server-side Sign, then Apply, Fixup and relic verify with integrity on; (c)+(d) every sequence of per-attempt outcomes {ok, 503, 500, 406, refused, 403} through the real client doRequest loop for accept-encodings {none, gzip, snappy, both, unknown} x 1-3 servers x retries {1,3}. distinct_nontrivial = (stream,schedule) pairs + failover histories with >=2 attempts")
+	run.Rule("(a) the client-side transform of 22 upload streams (every signer type, PGP in three modes) read three times; (b) each stream x every read-size schedule: constant sizes {1,2,7,511,512,513,4095,4096,4097,65535,65536,65537,2^20-1,2^20,2^20+1,unbounded}, ordered pairs as 2-cycles (quick: 7-value sub-ladder; thorough: full ladder), one short read (1 byte; one byte under the copy buffer) at every read index of the default schedule (capped at 80 indices) - the real server-side Sign, then Apply, Fixup and relic verify with integrity on; (c)+(d) every sequence of per-attempt outcomes {ok, 503, 500, 406, refused, 403} through the real client doRequest loop for accept-encodings {none, gzip, snappy, both, unknown} x 1-3 servers x retries {1,3}. distinct_nontrivial = (stream,schedule) pairs + failover histories with >=2 attempts")
 	run.Assume("'the same content digest' is decided by relic's verifier accepting the patched file with integrity checking on (the digest the verifier recomputes is a function of the file alone), since signatures embed the signing time and cannot be compared byte-wise")
 	run.Assume("request bodies are compared after decoding with relic's own compresshttp middleware")
 	run.Finish()
